@@ -197,6 +197,9 @@ class SymtableCodeGen(AbstractCodeGen):
         for sym in regedSyms:
             self._postponedSyms.pop(sym)
 
+        if regedSyms:
+            self.regPostponedSyms()
+
         # Clause handlers
 
     # noinspection PyUnusedLocal
